@@ -770,17 +770,20 @@ theorem swf_full (numDocs : Nat) (q : List Int) (k : Nat) (ex el : List Nat) (hn
   · rfl
   · simp [hne]
 
+theorem mem_liveEligible (ex el : List Nat) (d : Nat) : d ∈ liveEligible ex el ↔ d ∈ el ∧ d ∉ ex := by
+  simp [liveEligible]
+
 /-- the `len(vectorIDsToInclude) == 0` shortcut agrees with what a contract-abiding engine
     answers on an empty include list -/
 theorem swf_incl (hE : EngineOK E ix) (numDocs : Nat) (q : List Int) (k : Nat) (ex el : List Nat)
     (hq : q.length = ix.dim) (hne : el ≠ []) (hpart : el.length ≠ numDocs) :
     searchWithFilter E ix numDocs q k ex el = addIDsToPostingsList (vecDocIDMap ix.content)
-      (E.searchIncl q k (el.flatMap (docVecIDs (vecDocIDMap ix.content)))) := by
+      (E.searchIncl q k ((liveEligible ex el).flatMap (docVecIDs (vecDocIDMap ix.content)))) := by
   simp only [searchWithFilter, searchWithFilterCore, hq, ne_eq, not_true_eq_false, if_false,
     List.isEmpty_iff, hne, hpart]
   split
   · rename_i h
-    have hc := ((hE q k hq).2 (el.flatMap (docVecIDs (vecDocIDMap ix.content)))).count
+    have hc := ((hE q k hq).2 ((liveEligible ex el).flatMap (docVecIDs (vecDocIDMap ix.content)))).count
     rw [h] at hc ⊢
     have hz : ix.content.filter (fun t => ([] : List Nat).contains t.1) = [] := by
       rw [List.filter_eq_nil_iff]; intro a _; simp
@@ -816,27 +819,29 @@ theorem mem_of_full (l : List Nat) (n : Nat) (hnd : l.Nodup) (hlt : ∀ x ∈ l,
   rw [List.length_erase_of_mem (List.mem_range.2 hd), List.length_range] at this
   omega
 
-/-- everything `searchWithFilter` returns is the code of an entry of an eligible document
-    (partial filter), resp. of a non-excluded document (full filter) -/
+/-- everything `searchWithFilter` returns is the code of an entry of a non-excluded document
+    that - partial filter - is eligible -/
 theorem mem_swf (hnd : (ix.content.map (·.1)).Nodup) (hE : EngineOK E ix) (numDocs : Nat)
     (q : List Int) (k : Nat) (ex el : List Nat) (h : VHit)
     (hh : h ∈ searchWithFilter E ix numDocs q k ex el) :
-    ∃ t ∈ ix.content, h = vhitOf ix.metric q t ∧
-      (if el.length = numDocs then t.2.1 ∉ ex else t.2.1 ∈ el) := by
+    ∃ t ∈ ix.content, h = vhitOf ix.metric q t ∧ t.2.1 ∉ ex ∧
+      (if el.length = numDocs then True else t.2.1 ∈ el) := by
   by_cases hne : el = []
   · subst hne; rw [swf_empty] at hh; cases hh
   by_cases hq : q.length = ix.dim
   · by_cases hfull : el.length = numDocs
     · rw [swf_full E ix numDocs q k ex el hne hfull] at hh
       obtain ⟨t, ht, h1, h2⟩ := mem_search E ix hnd hE q k ex h hh
-      exact ⟨t, ht, h2, by simp [hfull, h1]⟩
+      exact ⟨t, ht, h2, h1, by simp [hfull]⟩
     · rw [swf_incl E ix hE numDocs q k ex el hq hne hfull] at hh
-      have hs := ((hE q k hq).2 (el.flatMap (docVecIDs (vecDocIDMap ix.content)))).sound
+      have hs := ((hE q k hq).2 ((liveEligible ex el).flatMap (docVecIDs (vecDocIDMap ix.content)))).sound
       obtain ⟨t, ht, _, ha, rfl⟩ := (mem_addIDs_complete ix.content hnd ix.metric q
-        (fun id => (el.flatMap (docVecIDs (vecDocIDMap ix.content))).contains id) _ hs h).1 hh
-      refine ⟨t, ht, rfl, ?_⟩
+        (fun id => ((liveEligible ex el).flatMap (docVecIDs (vecDocIDMap ix.content))).contains id) _ hs h).1 hh
+      have hl := (mem_docVecIDs_flatMap ix.content hnd (liveEligible ex el) t ht).1 (by simpa using ha)
+      rw [mem_liveEligible] at hl
+      refine ⟨t, ht, rfl, hl.2, ?_⟩
       simp only [hfull, if_false]
-      exact (mem_docVecIDs_flatMap ix.content hnd el t ht).1 (by simpa using ha)
+      exact hl.1
   · rw [swf_wrong_dim E ix numDocs q k ex el hq] at hh; cases hh
 
 theorem search_topk (hnd : (ix.content.map (·.1)).Nodup) (hE : EngineOK E ix) (opt : Nat)
@@ -847,14 +852,24 @@ theorem search_topk (hnd : (ix.content.map (·.1)).Nodup) (hE : EngineOK E ix) (
   rw [← filter_excl_eq ix hnd ex]
   exact validTopK_of_exactSel ix.content hnd ix.metric q k _ _ ((hE q k hq).1 _)
 
+/-- a document is both eligible and not excluded iff it is in the live eligible list -/
+theorem admissible_live (opt : Nat) (q : List Int) (ex el : List Nat) :
+    admissible (ix.toVecIx opt) q (some ex) (some el) =
+    admissible (ix.toVecIx opt) q none (some (liveEligible ex el)) := by
+  rw [admissible_eq, admissible_eq]
+  congr 1
+  apply List.filter_congr
+  intro t _
+  by_cases h1 : t.2.1 ∈ el <;> by_cases h2 : t.2.1 ∈ ex <;> simp [liveEligible, h1, h2]
+
 theorem swf_topk_incl (hnd : (ix.content.map (·.1)).Nodup) (hE : EngineOK E ix) (opt numDocs : Nat)
     (q : List Int) (k : Nat) (ex el : List Nat) (hq : q.length = ix.dim) (hne : el ≠ [])
     (hpart : el.length ≠ numDocs) :
-    validTopK ix.metric k (admissible (ix.toVecIx opt) q none (some el))
+    validTopK ix.metric k (admissible (ix.toVecIx opt) q (some ex) (some el))
       (searchWithFilter E ix numDocs q k ex el) = true := by
-  rw [swf_incl E ix hE numDocs q k ex el hq hne hpart, admissible_eq]
+  rw [swf_incl E ix hE numDocs q k ex el hq hne hpart, admissible_live, admissible_eq]
   simp only [Bool.true_and]
-  rw [← filter_incl_eq ix hnd el]
+  rw [← filter_incl_eq ix hnd (liveEligible ex el)]
   exact validTopK_of_exactSel ix.content hnd ix.metric q k _ _ ((hE q k hq).2 _)
 
 /-- caller contract `eligible ∩ ex = ∅`: then the exclusion changes nothing for a filtered search -/
